@@ -574,3 +574,12 @@ func NumCPU() int {
 	}
 	return simProcs
 }
+
+// SharedAdd adds d to *p without the race detector seeing the access: for
+// bookkeeping the harness shares between tasks (which run one at a time).
+//
+//go:norace
+func SharedAdd(p *int64, d int64) int64 {
+	*p += d
+	return *p
+}
